@@ -140,6 +140,10 @@ pub fn shrink(drv: &mut Driver, case: &Case) -> Case {
     if let Some(m) = run_case(drv, &cur) {
         cur.ops.truncate(m.op_index + 1);
     }
+    if cur.ops.len() > 200 {
+        // marathon cases: quadratic shrinking is not worth the time, the truncated history replays as it is
+        return cur;
+    }
     let mut i = cur.ops.len();
     while i > 0 {
         i -= 1;
@@ -171,8 +175,19 @@ pub fn corr_run(profile: &Profile, seed: u64, first: u64, cases: u64, max_failur
     let mut failures = Vec::new();
     for ci in first..first + cases {
         let mut r = Sm::new(seed.wrapping_mul(0x1000193).wrapping_add(ci));
-        let setup = gen_setup(&mut r, profile);
-        let nops = r.range(profile.ops_per_case.0, profile.ops_per_case.1);
+        let mut setup = gen_setup(&mut r, profile);
+        // one case in 150 is a marathon of probe rounds (wrap-around of the u8 probe number and timer token)
+        let marathon = ci % 150 == 7;
+        let mut marathon_profile = profile.clone();
+        if marathon {
+            marathon_profile.w = [3, 6, 88, 0, 0, 0, 0, 1, 0, 1, 1];
+            marathon_profile.malformed_pct = 2;
+            if setup.cfg.mps < 64 {
+                setup.cfg.mps = 300;
+            }
+        }
+        let profile = if marathon { &marathon_profile } else { profile };
+        let nops = if marathon { 1400 } else { r.range(profile.ops_per_case.0, profile.ops_per_case.1) };
         let mut pair = match Pair::new(&mut drv, 0, &setup) {
             Ok(p) => p,
             Err(m) => {
@@ -186,7 +201,21 @@ pub fn corr_run(profile: &Profile, seed: u64, first: u64, cases: u64, max_failur
         let mut any_effect = false;
         let mut failed = None;
         for i in 0..nops {
-            let op = gen_op(&mut r, profile, &pair.inst, &ctx);
+            let mut op = gen_op(&mut r, profile, &pair.inst, &ctx);
+            if marathon {
+                // keep the probe loop of the current epoch turning
+                let tok = pair.inst.foca.verif_snapshot().timer_token;
+                let pick = r.below(100);
+                if pick < 70 {
+                    if let Some(t) = ctx.timers.iter().rev().find(|t| matches!(t, foca::Timer::ProbeRandomMember(k) if *k == tok)) {
+                        op = Op::Timer(t.clone());
+                    }
+                } else if pick < 88 {
+                    if let Some(t) = ctx.timers.iter().rev().find(|t| matches!(t, foca::Timer::SendIndirectProbe { token, .. } if *token == tok)) {
+                        op = Op::Timer(t.clone());
+                    }
+                }
+            }
             ops.push(op.clone());
             let (out, _, mm) = pair.exec(&mut drv, i as usize, &op);
             stats.record_outcome(&op, &setup, &out);
